@@ -30,7 +30,7 @@ ASSUMPTIONS = [
 
 
 def BOUNDS(tier):
-    return {"item_lists": "every ordered selection of 1..3 out of three solid bodies (multipliers 0.25 / none / 3) on one field", "k": [1, 3, 6, 10], "E_nu": [[1.0, 0.3], [210.0, 0.0], [5.0, 0.45]], "densities": [1.0, 7.8], "rigid_motions": "6 cube rotations + generic + translation"}
+    return {"item_lists": "every ordered selection of 1..3 out of three solid bodies (multipliers 0.25 / none / 3) on one field", "k": [1, 3, 6, 10], "E_nu": [[1.0, 0.3], [210.0, 0.0], [5.0, 0.45]], "densities": [1.0, 7.8], "rigid_motions": "6 cube rotations + generic + translation", "prestrain": PRESTRAIN}
 
 
 FAMS = [("hexahedron", "3d"), ("hexahedron20", "3d"), ("tetra", "3d"), ("tetra10", "3d"), ("quad", "ps"), ("quad8", "ps"), ("triangle6", "ps")]
@@ -50,7 +50,90 @@ def plan(tier, seed):
     # (multiplier 0.25 / none / multiplier 3), so that nothing may leak from one item of the list to the next
     for mk, fk in (("hexahedron", "3d"), ("quad", "ps")):
         cases.append(dict(key=f"{mk}/items", kind="items", mesh=mk, fk=fk, seed=seed, tier=tier, cost=5))
+    # pre-stressed states: modal analysis of a Neo-Hookean bar clamped at both ends around a homogeneous axial pre-strain
+    # (stable and buckled states -- the stiffness as assembled from the items is then indefinite)
+    for mk, fk in (("quad", "ps"), ("hexahedron", "3d")):
+        cases.append(dict(key=f"{mk}/prestress", kind="prestress", mesh=mk, fk=fk, seed=seed, tier=tier, cost=4))
     return cases
+
+
+PRESTRAIN = [-0.3, -0.15, -0.05, 0.0, 0.1, 0.3]
+
+
+def run_prestress(case):
+    """every pre-strain of the alphabet x k in (1, 3, 6) x item multiplier: K is the tangent at the pre-deformed state as
+    assembled from the items (it need not be positive definite), M the mass matrix; returned pairs vs the checker's dense
+    symmetric-definite pencil (M is positive definite for the fully integrated families used here)"""
+    import felupe as fem
+    import scipy.linalg as sla
+
+    warnings.simplefilter("ignore")
+    key = case["key"]
+    viol, nontrivial, outcomes = [], [], set()
+    st = dict(trans=0, traces=0, states=0)
+
+    def bad(sub, what, obs, exp, tol=0):
+        if len(viol) < 50:
+            viol.append(dict(key=f"{key}/{sub}", what=what, observed=obs, expected=exp, tol=tol))
+
+    mk, fk, seed = case["mesh"], case["fk"], case["seed"]
+    d = 2 if fk == "ps" else 3
+    mesh = fem.Rectangle(b=(8.0, 1.0), n=(9, 3)) if d == 2 else fem.Cube(b=(6.0, 1.0, 0.8), n=(7, 2, 2))
+    P = mesh.points
+    ends = np.isclose(P[:, 0], 0.0) | np.isclose(P[:, 0], P[:, 0].max())
+    for eps in PRESTRAIN:
+        for mult in (None, 2.5):
+            region = zoo.region(mk, mesh)
+            Fc = fem.Field if fk == "3d" else fem.FieldPlaneStrain
+            field = fem.FieldContainer([Fc(region, dim=d)])
+            field[0].values[:, 0] = eps * P[:, 0]
+            field[0].values[:, 1] = -0.3 * eps * (P[:, 1] - 0.5)
+            body = fem.SolidBody(fem.NeoHooke(mu=1.0, bulk=4.0), field, density=1.3, multiplier=mult)
+            bounds = {"fix": fem.Boundary(field[0], mask=ends)}
+            dof0, dof1 = fem.dof.partition(field, bounds)
+            before = field[0].values.copy()
+            K1 = body.assemble.matrix(field).toarray()[np.ix_(dof1, dof1)] * (mult if mult is not None else 1.0)
+            M1 = body.assemble.mass().toarray()[np.ix_(dof1, dof1)]
+            dense = sla.eigh(0.5 * (K1 + K1.T), M1, eigvals_only=True)
+            nneg = int((dense < 0).sum())
+            outcomes.add(f"negative-eigenvalues:{min(nneg, 3)}{'+' if nneg > 3 else ''}")
+            near = dense[np.argsort(np.abs(dense))]  # shift 0: the eigenvalues nearest to zero are returned
+            for k in (1, 3, 6):
+                job = fem.FreeVibration([body], bounds)
+                v0 = 1.0 + zoo.offarr(seed, 1700, (len(dof1),))
+                job.evaluate(x0=field, k=k, v0=v0)
+                st["trans"] += 1
+                st["states"] += 1
+                sub = f"eps={eps}/multiplier={mult}/k={k}"
+                lam_, V = np.asarray(job.eigenvalues), np.asarray(job.eigenvectors)
+                if lam_.shape != (k,) or V.shape != (len(dof1), k):
+                    bad(sub + "/shape", "shapes of eigenvalues / eigenvectors", [list(lam_.shape), list(V.shape)], [[k], [len(dof1), k]])
+                    continue
+                nontrivial.append(sub)
+                Kn = np.abs(K1).max()
+                for i in range(k):
+                    v = V[:, i]
+                    res = np.abs(K1 @ v - lam_[i] * (M1 @ v)).max()
+                    st["traces"] += 1
+                    if res > 1e-7 * Kn * np.abs(v).max():
+                        bad(sub + f"/pair{i}", "K v = lambda M v on the free unknowns (K = tangent of the pre-deformed state)", float(res / (Kn * np.abs(v).max())), "<= 1e-7", 1e-7)
+                ref = np.sort(near[:k])
+                gap = abs(abs(near[k]) - abs(near[k - 1])) if k < len(near) else 1.0
+                scale = max(np.abs(near[: k + 1]).max(), 1e-12)
+                if gap > 1e-6 * scale and np.abs(np.sort(lam_) - ref).max() > 1e-7 * scale:
+                    bad(sub + "/spectrum", "returned eigenvalues vs the k eigenvalues of the dense pencil nearest to the shift", np.sort(lam_).tolist(), ref.tolist(), 1e-7)
+                for i in range(k):
+                    f2, freq = job.extract(n=i, x0=field, inplace=False)
+                    vals = f2[0].values.ravel()
+                    if np.abs(vals[dof0]).max() > 0:
+                        bad(sub + f"/mode{i}/prescribed", "extracted mode shape must vanish on prescribed unknowns", float(np.abs(vals[dof0]).max()), 0)
+                    if lam_[i] > 0 and not abs(freq - np.sqrt(lam_[i]) / (2 * np.pi)) <= 1e-14 * max(freq, 1):
+                        bad(sub + f"/mode{i}/frequency", "frequency = sqrt(lambda) / 2 pi", float(freq), float(np.sqrt(lam_[i]) / (2 * np.pi)))
+                if not np.array_equal(field[0].values, before):
+                    bad(sub + "/inplace", "evaluate / extract(inplace=False) must not modify the pre-deformed field", "modified", "unchanged")
+    sample = dict(case=key, free=int(len(dof1)), prestrains=PRESTRAIN)
+    return dict(viol=viol, states=st["states"], transitions=st["trans"], traces=st["traces"], nontrivial=nontrivial, outcomes=sorted(outcomes), sample=sample,
+                digest=f"{st['states']}/{st['traces']}/{len(viol)}")
 
 
 def run_items(case):
@@ -166,6 +249,8 @@ def run(case):
 
     if case.get("kind") == "items":
         return run_items(case)
+    if case.get("kind") == "prestress":
+        return run_prestress(case)
     warnings.simplefilter("ignore")
     key = case["key"]
     viol, nontrivial, outcomes, notes = [], [], set(), []
